@@ -280,6 +280,10 @@ func handleInsertValues(p *InsertPlan) error {
 			if err != nil {
 				return fmt.Errorf("find table index error: %v", err)
 			}
+		default:
+			// a signed number, an arithmetic expression or a function call is not evaluated by
+			// the proxy, so the row cannot be routed; dropping it silently would lose the row
+			return fmt.Errorf("sharding value must be a literal, got expression of type %T", valueItem)
 		}
 	}
 
